@@ -214,7 +214,7 @@ def call_cli(path):
         # message is not required to be a single line; the number of lines is only recorded.)
         text = err.getvalue()
         lines = [ln for ln in text.split("\n") if ln.strip()]
-        ok = e.code == 1 and bool(lines) and "Traceback (most recent call last)" not in text
+        ok = e.code not in (0, None) and bool(lines) and "Traceback" not in text
         res = {"outcome": "exit" if ok else "bad-exit", "code": e.code, "stderr": text[:300],
                "sig": f"exit:{e.code}:{min(len(lines), 2)}"}
     except _Timeout:
@@ -632,7 +632,7 @@ def eval_case(case, with_cli=False):
                               f"cat-numbers <{case}> ended in a traceback: {c['exc']}: {c['msg']} (innermost container frame {c['frame']})"))
             elif c["outcome"] == "bad-exit":
                 fails.append(({"mechanism": "cat-numbers", "class": cls, "pattern": f"exit={c['code']}", "stage": "cli"},
-                              f"cat-numbers <{case}> exit code {c['code']}, stderr {c['stderr']!r} (expected exit 1 and a message, not a traceback)"))
+                              f"cat-numbers <{case}> exit code {c['code']}, stderr {c['stderr']!r} (expected a non-zero exit status and a message on stderr, not a traceback)"))
     finally:
         if cleanup:
             cleanup()
